@@ -4,6 +4,8 @@ import Siot.Gen.Sync
 import Siot.Lemmas.SyncLoop
 import Siot.Lemmas.SyncTree
 import Siot.Lemmas.SyncSendTree
+import Siot.Lemmas.StoreRows
+import Siot.Props.C03
 import Siot.Gen.SyncLoop
 /-
 C02 — Linked instances converge on the shared device tree.
@@ -235,6 +237,22 @@ example :
     rcases hbelow m hm with rfl | rfl | rfl | rfl <;> decide
   · intro m hm
     rcases hbelow m hm with rfl | rfl | rfl | rfl <;> decide
+
+/-- **C02 (the "stored rows" premises hold on every store).** The convergence theorems above take as premises that the
+rows of the two stores are stored rows (`StoredRows`: key never empty, value neither -0 nor NaN), one row per identity
+(`IdUnique`), and that the node type is never an edge row. These are not assumptions about the instances: from the empty
+store, after ANY sequence of write requests (accepted or refused), every node and every edge of the store satisfies
+them — the store normalises what it writes and refuses NaN (`rowInv_run`), and keeps one row per identity
+(`c03_reachable`). What remains a genuine premise of those theorems is the distinctness of time stamps per identity
+(`Admissible`, the property's own "distinct timestamps per identity") and the shape of the trees. -/
+theorem c02_stored_rows_on_every_store (ops : List WOp) :
+    (∀ id, StoredRows (ptsOf (run {} ops) id) ∧ IdUnique (ptsOf (run {} ops) id)) ∧
+    (∀ u d, StoredRows (eptsOf (run {} ops) u d) ∧ IdUnique (eptsOf (run {} ops) u d) ∧
+      ∀ p ∈ eptsOf (run {} ops) u d, p.type ≠ nodeTypeT) := by
+  have hr := rowInv_run ops {} rowInv_empty
+  have hi := c03_reachable ops
+  exact ⟨fun id => ⟨storedRows_pts _ hr id, hi.npu id⟩,
+    fun u d => ⟨storedRows_epts _ hr u d, hi.epu (u, d), epts_no_nodeType _ hr u d⟩⟩
 
 /-- **C02 (a subtree the upstream instance does not have yet arrives whole).** The catch-up pass meets a local node
 that upstream lacks — the node itself (`syncNode`, nothing returned upstream) or a child (`syncChildren`, no upstream child
